@@ -40,14 +40,16 @@ func verifC10Files() [][]byte {
 	// accepts them, so create/show must answer normally and keep serving
 	for _, k := range []uint32{1, 30, 31, 34, 39, 40, 99, 1 << 31, 1<<32 - 1} {
 		var vb bytes.Buffer
-		ggml.WriteGGUF(verifMemWS{&vb}, ggml.KV{"general.architecture": "llama", "general.file_type": k, "llama.block_count": uint32(1), "tokenizer.ggml.tokens": []string{"a"}},
+		verifMustWrite(verifMemWS{&vb}, ggml.KV{"general.architecture": "llama", "general.file_type": k, "llama.block_count": uint32(1), "tokenizer.ggml.tokens": []string{"a"}},
 			[]ggml.Tensor{{Name: "blk.0.attn_q.weight", Kind: k, Shape: []uint64{2, 2}, WriterTo: bytes.NewReader(make([]byte, ggml.Tensor{Kind: k, Shape: []uint64{2, 2}}.Size()))}})
 		files = append(files, vb.Bytes())
 	}
 	// well-formed files in which a key the handlers read through a typed accessor (ggml.KV.String/Uint/…: Kind,
 	// Architecture, FileType, ChatTemplate, BlockCount, vision.block_count, …) is stored with ANOTHER type, or is
 	// an adapter / a projector: the metadata is attacker-controlled, the accessors must not fail on it
-	wrong := []any{uint32(7), "text", uint64(3), float32(1.5), true, []string{"x"}, []int32{1, 2}, int8(-1)}
+	// (uint64 / int8 are not value types WriteGGUF can write: those — and the other scalar widths — are stored by the raw
+	// writer below; every WriteGGUF of this corpus is checked)
+	wrong := []any{uint32(7), "text", float32(1.5), true, []string{"x"}, []int32{1, 2}}
 	for _, key := range []string{"general.architecture", "general.type", "general.file_type", "general.name", "general.parameter_count",
 		"tokenizer.chat_template", "tokenizer.ggml.tokens", "tokenizer.ggml.model", "llama.block_count", "llama.vision.block_count",
 		"llama.context_length", "llama.embedding_length", "llama.attention.head_count", "llama.attention.head_count_kv", "llama.pooling_type"} {
@@ -58,28 +60,44 @@ func verifC10Files() [][]byte {
 			kv := ggml.KV{"general.architecture": "llama", "llama.block_count": uint32(1), "tokenizer.ggml.tokens": []string{"a"}}
 			kv[key] = w
 			var vb bytes.Buffer
-			ggml.WriteGGUF(verifMemWS{&vb}, kv, []ggml.Tensor{{Name: "blk.0.attn_q.weight", Kind: 0, Shape: []uint64{2, 2}, WriterTo: bytes.NewReader(make([]byte, 16))}})
+			verifMustWrite(verifMemWS{&vb}, kv, []ggml.Tensor{{Name: "blk.0.attn_q.weight", Kind: 0, Shape: []uint64{2, 2}, WriterTo: bytes.NewReader(make([]byte, 16))}})
 			files = append(files, vb.Bytes())
 		}
 	}
 	// well-formed files whose float metadata is not a number JSON can carry (NaN, +-Inf): show returns the metadata as JSON
 	for _, fbits := range []uint32{0x7fc00000, 0x7f800000, 0xff800000, 0x7f800001} {
 		var vb bytes.Buffer
-		ggml.WriteGGUF(verifMemWS{&vb}, ggml.KV{"general.architecture": "llama", "llama.block_count": uint32(1), "llama.rope.freq_base": math.Float32frombits(fbits),
+		verifMustWrite(verifMemWS{&vb}, ggml.KV{"general.architecture": "llama", "llama.block_count": uint32(1), "llama.rope.freq_base": math.Float32frombits(fbits),
 			"llama.rope.scales": []float32{1, math.Float32frombits(fbits)}, "tokenizer.ggml.tokens": []string{"a"}},
 			[]ggml.Tensor{{Name: "blk.0.attn_q.weight", Kind: 0, Shape: []uint64{2, 2}, WriterTo: bytes.NewReader(make([]byte, 16))}})
 		files = append(files, vb.Bytes())
 	}
+	// the same keys stored with the value types only OTHER writers produce (u8, i8, u16, i16, i64, u64, f64): written raw
+	rawTypes := []struct {
+		typ     uint32
+		payload []byte
+	}{{0, []byte{7}}, {1, []byte{0xff}}, {2, []byte{7, 0}}, {3, []byte{0xff, 0xff}}, {10, []byte{3, 0, 0, 0, 0, 0, 0, 0}},
+		{11, []byte{0xff, 0xff, 0xff, 0xff, 0xff, 0xff, 0xff, 0xff}}, {12, []byte{0, 0, 0, 0, 0, 0, 0xf8, 0x7f}}}
+	for ki, key := range []string{"general.architecture", "general.type", "general.file_type", "general.name", "general.alignment",
+		"tokenizer.chat_template", "tokenizer.ggml.tokens", "tokenizer.ggml.model", "llama.block_count", "llama.vision.block_count",
+		"llama.context_length", "llama.embedding_length", "llama.attention.head_count", "llama.attention.head_count_kv", "llama.pooling_type"} {
+		for ti, rt := range rawTypes {
+			if (ki+ti)%2 == 0 {
+				files = append(files, verifC10RawFile(key, rt.typ, rt.payload))
+				verifC10RawCount++
+			}
+		}
+	}
 	for _, kind := range []string{"adapter", "projector", "model", ""} {
 		var vb bytes.Buffer
-		ggml.WriteGGUF(verifMemWS{&vb}, ggml.KV{"general.architecture": "llama", "general.type": kind, "llama.block_count": uint32(1), "tokenizer.ggml.tokens": []string{"a"}},
+		verifMustWrite(verifMemWS{&vb}, ggml.KV{"general.architecture": "llama", "general.type": kind, "llama.block_count": uint32(1), "tokenizer.ggml.tokens": []string{"a"}},
 			[]ggml.Tensor{{Name: "blk.0.attn_q.weight", Kind: 0, Shape: []uint64{2, 2}, WriterTo: bytes.NewReader(make([]byte, 16))}})
 		files = append(files, vb.Bytes())
 	}
 	// seeded mutants of a small valid file (field overwrites with boundary values, truncations)
 	var base bytes.Buffer
 	wf := verifMemWS{&base}
-	ggml.WriteGGUF(wf, ggml.KV{"general.architecture": "llama", "general.alignment": uint32(32), "tokenizer.ggml.tokens": []string{"a", "b"}, "llama.block_count": uint32(1)},
+	verifMustWrite(wf, ggml.KV{"general.architecture": "llama", "general.alignment": uint32(32), "tokenizer.ggml.tokens": []string{"a", "b"}, "llama.block_count": uint32(1)},
 		[]ggml.Tensor{{Name: "blk.0.attn_q.weight", Kind: 0, Shape: []uint64{2, 2}, WriterTo: bytes.NewReader(make([]byte, 16))}, {Name: "output.weight", Kind: 0, Shape: []uint64{1}, WriterTo: bytes.NewReader(make([]byte, 4))}})
 	root := zzverif.NewRng(zzverif.Seed())
 	vals := []uint64{0, 1, 3, 9, 13, 255, 1 << 31, 1<<32 - 1, 1 << 40, 1<<62 - 16, 1 << 63, 1<<64 - 1, 1<<64 - 64}
@@ -105,10 +123,10 @@ func verifC10Files() [][]byte {
 	// several models back to back in one upload (create's ggufLayers loop): every decode starts where the previous
 	// one ended; trailing bytes that are not a model; the same model twice (equal lengths)
 	var second bytes.Buffer
-	ggml.WriteGGUF(verifMemWS{&second}, ggml.KV{"general.architecture": "llama", "general.alignment": uint32(8), "llama.block_count": uint32(1), "x": "yz"},
+	verifMustWrite(verifMemWS{&second}, ggml.KV{"general.architecture": "llama", "general.alignment": uint32(8), "llama.block_count": uint32(1), "x": "yz"},
 		[]ggml.Tensor{{Name: "blk.0.ffn_up.weight", Kind: 0, Shape: []uint64{3}, WriterTo: bytes.NewReader(make([]byte, 12))}})
 	var third bytes.Buffer
-	ggml.WriteGGUF(verifMemWS{&third}, ggml.KV{"general.architecture": "llama", "llama.block_count": uint32(2)},
+	verifMustWrite(verifMemWS{&third}, ggml.KV{"general.architecture": "llama", "llama.block_count": uint32(2)},
 		[]ggml.Tensor{{Name: "blk.1.attn_k.weight", Kind: 1, Shape: []uint64{4, 8}, WriterTo: bytes.NewReader(make([]byte, 64))}})
 	hdr := []byte("GGUF\x03\x00\x00\x00\x00\x00\x00\x00\x00\x00\x00\x00\x00\x00\x00\x00\x00\x00\x00\x00")
 	a, b, c := base.Bytes(), second.Bytes(), third.Bytes()
@@ -141,6 +159,74 @@ func verifC10Files() [][]byte {
 	files = append(files, multi...)
 	return files
 }
+
+// verifMustWrite: a corpus file that WriteGGUF refuses would silently become a truncated file
+func verifMustWrite(ws io.WriteSeeker, kv ggml.KV, ts []ggml.Tensor) {
+	if err := ggml.WriteGGUF(ws, kv, ts); err != nil {
+		panic(fmt.Sprintf("verif: corpus file not written: %v (kv %v)", err, kv))
+	}
+}
+
+// verifC10RawFile: a well-formed v3 file (architecture llama, one block, one token, one 16-byte tensor) in which `key` is
+// stored with the raw value type `typ` and payload (types WriteGGUF cannot produce)
+func verifC10RawFile(key string, typ uint32, payload []byte) []byte {
+	var b bytes.Buffer
+	w := func(v any) { binary.Write(&b, binary.LittleEndian, v) }
+	str := func(s string) { w(uint64(len(s))); b.WriteString(s) }
+	type kv struct {
+		k string
+		f func()
+	}
+	kvs := []kv{
+		{"general.architecture", func() { w(uint32(8)); str("llama") }},
+		{"llama.block_count", func() { w(uint32(4)); w(uint32(1)) }},
+		{"tokenizer.ggml.tokens", func() { w(uint32(9)); w(uint32(8)); w(uint64(1)); str("a") }},
+	}
+	replaced := false
+	for i := range kvs {
+		if kvs[i].k == key {
+			kvs[i].f = func() { w(typ); b.Write(payload) }
+			replaced = true
+		}
+	}
+	if !replaced {
+		kvs = append(kvs, kv{key, func() { w(typ); b.Write(payload) }})
+	}
+	b.WriteString("GGUF")
+	w(uint32(3))
+	w(uint64(1))
+	w(uint64(len(kvs)))
+	for _, e := range kvs {
+		str(e.k)
+		e.f()
+	}
+	str("blk.0.attn_q.weight")
+	w(uint32(2))
+	w(uint64(2))
+	w(uint64(2))
+	w(uint32(0))
+	w(uint64(0))
+	for b.Len()%32 != 0 {
+		b.WriteByte(0)
+	}
+	b.Write(make([]byte, 16))
+	return b.Bytes()
+}
+
+// verifHasError: the answer carries an "error" member (a JSON object, or the last line of an NDJSON stream); a body that
+// merely contains the word is not an error answer
+func verifHasError(body string) bool {
+	lines := strings.Split(strings.TrimSpace(body), "\n")
+	var obj map[string]json.RawMessage
+	if json.Unmarshal([]byte(lines[len(lines)-1]), &obj) == nil {
+		_, ok := obj["error"]
+		return ok
+	}
+	return strings.Contains(body, "\"error\"")
+}
+
+// number of raw-typed files in the corpus (reported as api_rawtype_files)
+var verifC10RawCount int
 
 // index of the first multi-model file in verifC10Files (the ones compared with the model's ggufLayers)
 var verifC10MultiStart int
@@ -200,7 +286,7 @@ func TestVerifC10APIChild(t *testing.T) {
 		fmt.Printf("VERIF blob=%d\n", st)
 		stream := false
 		st, body := post("/api/create", map[string]any{"model": "m", "files": map[string]string{"m.gguf": digest}, "stream": &stream})
-		fmt.Printf("VERIF create=%d error=%v\n", st, strings.Contains(body, "error"))
+		fmt.Printf("VERIF create=%d error=%v\n", st, verifHasError(body))
 		if man, err := os.ReadFile(filepath.Join(os.Getenv("OLLAMA_MODELS"), "manifests", "registry.ollama.ai", "library", "m", "latest")); err == nil {
 			var mf struct {
 				Layers []struct {
@@ -248,13 +334,13 @@ func TestVerifC10APIChild(t *testing.T) {
 		os.WriteFile(filepath.Join(mp, "latest"), []byte(man), 0o644)
 		if mode == "show" {
 			st, body := post("/api/show", map[string]any{"model": "m", "verbose": true})
-			fmt.Printf("VERIF show=%d error=%v\n", st, strings.Contains(body, "error"))
+			fmt.Printf("VERIF show=%d error=%v\n", st, verifHasError(body))
 		} else {
 			// POST /api/create {"from": "m"}: server/model.go parseFromModel decodes every model layer of the installed
 			// model, then createModel reads its metadata through the typed accessors
 			stream := false
 			st, body := post("/api/create", map[string]any{"model": "m2", "from": "m", "stream": &stream})
-			fmt.Printf("VERIF createfrom=%d error=%v\n", st, strings.Contains(body, "error"))
+			fmt.Printf("VERIF createfrom=%d error=%v\n", st, verifHasError(body))
 		}
 	}
 	// liveness probe
@@ -271,6 +357,7 @@ func TestVerifC10API(t *testing.T) {
 	files := verifC10Files()
 	maxSeek := verifC10MaxSeek(t)
 	out.Add("fs_max_seek_log2", bits.Len64(uint64(maxSeek)))
+	out.Add("api_rawtype_files", verifC10RawCount)
 	type result struct {
 		mode   string
 		idx    int
@@ -332,7 +419,7 @@ func TestVerifC10API(t *testing.T) {
 					out.L2("api-create-layer-not-one-model", caseLine, "a layer cut out of the upload is not exactly one model (decode of the layer's own blob does not end at its size): "+lay[i+9:])
 					lay = lay[:i]
 				}
-				impl = "ok sizes=" + lay // "<n1,n2,…> media=<m|a|p,…>" 
+				impl = "ok sizes=" + lay // "<n1,n2,…> media=<m|a|p,…>"
 			}
 			out.Case(fmt.Sprintf("gguf-layers %d %s", maxSeek, zzverif.Hex(files[r.idx])), impl)
 			if r.idx >= verifC10MultiStart {
@@ -411,13 +498,13 @@ func verifC10RunChildOnce(idx int, mode string, limit time.Duration) (string, st
 		res = "hang"
 	}
 	text := buf.String()
-	var status, alive, layers, inexact string
+	var status, alive, layers, inexact, blobRefused string
 	undecodable := false
 	for _, line := range strings.Split(text, "\n") {
 		if strings.HasPrefix(line, "VERIF layers=") {
 			layers = strings.TrimPrefix(line, "VERIF layers=")
 		}
-		if strings.HasPrefix(line, "VERIF layerexact=") && strings.Contains(line, "0(") {
+		if strings.HasPrefix(line, "VERIF layerexact=") && (strings.Contains(line, "0(") || strings.Contains(line, "?")) {
 			inexact = strings.TrimPrefix(line, "VERIF layerexact=")
 		}
 		if strings.HasPrefix(line, "VERIF "+mode+"=") {
@@ -429,9 +516,15 @@ func verifC10RunChildOnce(idx int, mode string, limit time.Duration) (string, st
 		if strings.HasPrefix(line, "VERIF decodable=false") {
 			undecodable = true
 		}
+		if strings.HasPrefix(line, "VERIF blob=") && line != "VERIF blob=201" && line != "VERIF blob=200" {
+			blobRefused = line
+		}
 	}
 	switch {
 	case res == "hang":
+	case blobRefused != "":
+		// the upload itself was not accepted: create would answer "blob not found" without decoding anything
+		res = "unknown upload refused: " + blobRefused
 	case alive == "alive" && status != "" && undecodable && strings.Contains(status, "error=false"):
 		// the file does not decode, yet the request reported success
 		res = "no-error " + status + " alive"
